@@ -38,7 +38,7 @@ CHECKS.update({
         ref='3/C19'),
     'C20': dict(
         technique='bounded-exhaustive enumeration of record/question pairs plus property-based random pairs (Hypothesis); oracle = identity computed from construction parameters',
-        text='All ordered pairs over a bounded vocabulary (558 records + 27 questions in the quick tier) and random derived pairs; ==, !=, hash, '
+        text='All ordered pairs over a bounded vocabulary (594 records + 27 questions in the quick tier; NSEC type lists in both orders) and random derived pairs; ==, !=, hash, '
              'set/dict membership, DNSRRSet.suppresses and DNSCache.get/async_get_unique must agree with the identity relation.',
         note='exhaustive only over the stated vocabulary; NSEC next-name case not varied',
         ref='3/C20'),
@@ -63,7 +63,7 @@ CHECKS.update({
 CHECKS.update({
     'C03': dict(
         technique='model-based property testing (Hypothesis histories of register/update/unregister/query against ResponderModel), replies read from the simulated wire with an independent decoder',
-        text=SIM + 'generated registry histories and queries (known answers aimed at the half-TTL boundary) are answered by the real '
+        text=SIM + 'generated registry histories and queries (legacy port, QM, or port 5353 with the QU bit on any subset of the questions; known answers aimed at the half-TTL boundary) are answered by the real '
              'responder; answers, TTLs and additionals on the wire are compared with ResponderModel.',
         note='trusts ResponderModel, the simulator and vlib/wire.py; stated don\'t-care regions (ANY on hosts, NSEC corner cases) impose nothing',
         ref='3/C03'),
@@ -72,7 +72,7 @@ CHECKS.update({
 CHECKS.update({
     'C04': dict(
         technique='property-based testing of generated response/clock histories in the simulator; invariant oracle over the callback history and the real cache',
-        text=SIM + 'browsers receive generated datagram histories (new/refresh/re-cased/goodbye/flush/repeated pointers, clock steps up to hours); '
+        text=SIM + 'browsers receive generated datagram histories (new/refresh/re-cased/goodbye/flush/repeated pointers, datagrams mixing pointer and SRV/TXT/A changes of one instance, clock steps up to hours); '
              'callback alternation, live-set == cached pointer set after every op, and visibility of the triggering records from inside add_service.',
         note='restrictions of the property are built into the generator; C05 ties the cache itself to the RFC model',
         ref='3/C04'),
@@ -141,7 +141,7 @@ CHECKS.update({
         technique='property-based testing of generated cache states and record arrival schedules in the simulator; oracle = availability intervals from the harness\' own injection log',
         text=SIM + 'SRV/TXT/A/AAAA records absent, fresh, stale or expired-but-unpurged, plus arrivals on a grid around the lookup\'s query instants and its deadline; '
              'return time bound, True => fields from records unexpired inside the window and >= 1 address, False => SRV and address never both available, '
-             'cache-first without transmission listing all unexpired addresses, QU-then-QM.',
+             'cache-first without transmission listing all unexpired addresses, QU-then-QM, and per query: fresh SRV/TXT answer held => question omitted, no unexpired answer held => question asked.',
         note='no cache-flush bits; one SRV identity per instance; same-instant ordering by sequence number',
         ref='3/C18'),
 })
@@ -149,7 +149,7 @@ CHECKS.update({
 CHECKS.update({
     'C09': dict(
         technique='property-based testing of generated conflict-arrival/delay schedules on a two-host simulated link; oracle over the newcomer\'s independently decoded trace, its perceived cache learning times and the API result',
-        text=SIM + 'owner chains X, X-2, X-3, pre-populated or empty caches, 0-150 ms one-way delays, conflicting pointers injected on a grid around the three probe instants; '
+        text=SIM + 'owner chains X, X-2, X-3, pre-populated or empty caches, 0-150 ms one-way delays, conflicting pointers injected on a grid around the three probe instants (also as the refresh of a pointer that just expired in the newcomer\'s cache); '
              'probe format and 175 ms spacing, announcements only after the third probe (3 x 225 ms, complete, configured TTLs, flush bits), conflicts learned before the '
              'third probe rejected and never announced, no spurious conflicts or skipped suffixes, no duplicate names.',
         note='t_learn is the newcomer\'s own perception via a spy listener; a conflict within 2 ms of the third probe instant is a tie',
